@@ -2556,4 +2556,20 @@ def const_header : List Nat :=
 /-- sha256 of the printed source of ParseVector (/repo/40/cvss40.go:30:1) -/
 def srchash_ParseVector : String := "dfc7cca31e261b97"
 
+/-- package-level variables (name:type) -/
+def pkg_vars : List String :=
+  ["ErrInvalidCVSSHeader:error", "ErrInvalidMetricOrder:error", "ErrInvalidMetricValue:error", "ErrOutOfBoundsScore:error", "ErrTooShortVector:error", "highestSeverityVectors:[][][]int", "highestSeverityVectorsEQ3EQ6:[][][]int", "order:[][]string", "sevIdx:[][]uint8"]
+
+/-- function:variable for every assignment to (or address-of) a package-level variable inside a function body -/
+def pkg_writes : List String :=
+  []
+
+/-- function:variable.method for every method call on a package-level variable; function:go for goroutine starts -/
+def pkg_calls : List String :=
+  []
+
+/-- function:unsafe.X for every use of package unsafe -/
+def pkg_unsafe : List String :=
+  ["CVSS40.Vector:unsafe.Pointer"]
+
 end GenV40
